@@ -16,6 +16,13 @@ structure Cfg where
   overhead : Nat   -- GasOverheadPerUpkeep (uint32)
 deriving DecidableEq, Repr
 
+/-- `config.ensureMinimumDefaults` on the three fields `Reports` reads (pkg/v3/config/config.go): a zero gas limit or
+overhead and a non-positive batch size are replaced by the defaults (the wire value of the batch size is an `int`) -/
+def ensureDefaults (batch : Int) (gasLimit overhead : Nat) : Cfg :=
+  { batch := if batch ≤ 0 then 1 else batch.toNat,
+    gasLimit := if gasLimit = 0 then 5300000 else gasLimit,
+    overhead := if overhead = 0 then 300000 else overhead }
+
 /-- the flush condition of the loop, as in the code after `fix: reports: never flush an empty batch on gas` -/
 def flush (cfg : Cfg) (cur : List CheckResult) (gas : Nat) (r : CheckResult) : Bool :=
   decide (cur.length ≥ cfg.batch) ||
